@@ -411,6 +411,11 @@ class Eval:
             return ("concat", init, m)
         if new[0] in ("union", "concat") and new[1] == lc and not T.contains(new[2], lc):
             return (new[0], init, ("flatmap", new[2], bv, it, T.TRUE))
+        if new[0] == "phi" and not T.contains(new[1], lc):
+            # conditional union / concatenation: only the iterations satisfying the condition contribute
+            for branch, other, cond in ((new[2], new[3], new[1]), (new[3], new[2], T.b_not(new[1]))):
+                if other == lc and branch[0] in ("union", "concat") and branch[1] == lc and not T.contains(branch[2], lc):
+                    return (branch[0], init, ("flatmap", branch[2], bv, it, cond))
         # numeric accumulation: lc + f
         d = T.sub(new, lc)
         if not T.contains(d, lc):
